@@ -12,6 +12,12 @@ Impl model (transliteration, defects included) of
                                                                            → `insRow` / `afterInsert`
                                        `StatementBegin/DiscardChanges`     → `stmtInsert` restoring `tbl`
                                        `SetAutoIncrementValue`             → `.alter`
+  * sql/rowexec/ddl_iters.go           table rewrites (`RewriteInserter` users: ALTER TABLE … DROP COLUMN,
+                                       ADD COLUMN … NOT NULL / DEFAULT, ADD|DROP PRIMARY KEY): the table
+                                       data is truncated (counter := 1) and the old rows are re-inserted
+                                       straight through `tableEditor.Insert` — they never pass through
+                                       `AutoIncrement.Eval`, so the editor alone re-derives the counter
+                                                                           → `reinsertCtr` / `.rewrite`
                                        `Update` / `Delete`                 → `.upd` / `.del`
   * sql/rowexec/insert.go              `insertIter.Next`, `updateLastInsertId` (countdown
                                        `firstGeneratedAutoIncRowIdx`)      → `insLoop`
@@ -99,6 +105,11 @@ def afterInsert (c : Cfg) (ctr : Nat) (v : Int) : Nat :=
   else if v = (ctr : Int) then bump c ctr
   else ctr
 
+/-- Go: the counter after rows reach `tableEditor.Insert` directly (no `AutoIncrement.Eval`):
+the editor's `cmp > 0 ⇒ set, bump` / `cmp == 0 ⇒ bump` chain is the only code that moves it. -/
+def reinsertCtr (c : Cfg) (ctr : Nat) (rows : List Row) : Nat :=
+  rows.foldl (fun k r => afterInsert c k r.id) ctr
+
 /-- Ghost log entry: a successfully inserted auto-column value, and whether it was generated. -/
 structure Ev where
   v : Int
@@ -177,6 +188,8 @@ inductive Op where
   | upd (a b : Int)
   | alter (n : Nat)
   | trunc
+  /-- a table rewrite (ALTER TABLE … DROP COLUMN / ADD COLUMN … NOT NULL DEFAULT …) -/
+  | rewrite
   deriving Repr
 
 /-- Known-defect classes (names are the region names used in known_findings/C20.jsonl). -/
@@ -186,6 +199,7 @@ inductive Region where
   | saturated_reuse             -- a value is generated although it was handed out before (counter stuck at the type maximum)
   | failed_insert_sets_last_insert_id
   | okpacket_first_row_explicit
+  | rewrite_lowers_counter      -- a table rewrite re-derives the counter from the stored rows only (max+1): a higher counter is forgotten
   deriving Repr, DecidableEq
 
 def Region.name : Region → String
@@ -194,6 +208,7 @@ def Region.name : Region → String
   | .saturated_reuse => "saturated_reuse"
   | .failed_insert_sets_last_insert_id => "failed_insert_sets_last_insert_id"
   | .okpacket_first_row_explicit => "okpacket_first_row_explicit"
+  | .rewrite_lowers_counter => "rewrite_lowers_counter"
 
 /-- Outcome of one statement as the client sees it. -/
 inductive Res where
@@ -254,6 +269,12 @@ def step (c : Cfg) (s : St) : Op → St × Res × List Region
     ({ s with tbl := { s.tbl with ctr := n }, opn := s.opn + 1 }, .done, flags)
   | .trunc =>
     ({ s with tbl := ⟨1, []⟩, log := [], opn := s.opn + 1 }, .ok s.tbl.rows.length 0, [])
+  | .rewrite =>
+    -- truncate (counter 1), then every old row through `tableEditor.Insert`; the ghost log is kept
+    -- (the table's lifetime goes on)
+    let n := reinsertCtr c 1 s.tbl.rows
+    ({ s with tbl := { s.tbl with ctr := n }, opn := s.opn + 1 }, .ok 0 0,
+     if n < s.tbl.ctr then [Region.rewrite_lowers_counter] else [])
 
 /-- Run a history; collect the flags. -/
 def run (c : Cfg) : St → List Op → St × List Region
